@@ -27,7 +27,27 @@ type dtPath struct {
 	Ret    []string
 	RetPos token.Pos
 	Steps  []string // calls and stores executed on the path, in order
+	Calls  []dtCall // the calls among Steps, structured
 	env    map[types.Object]string
+}
+
+type dtCall struct {
+	Name string   // resolved callee ("pkg.Func", "(pkg.T).Method") with the module path stripped
+	Recv string   // canonical receiver expression for method calls
+	Args []string // canonical arguments
+	Step int      // index into Steps
+	Pos  token.Pos
+}
+
+// CallsTo returns the calls on the path whose resolved name ends with suffix.
+func (p *dtPath) CallsTo(suffix string) []dtCall {
+	var out []dtCall
+	for _, c := range p.Calls {
+		if strings.HasSuffix(c.Name, suffix) {
+			out = append(out, c)
+		}
+	}
+	return out
 }
 
 func (p *dtPath) atom(expr string) (bool, bool) {
@@ -52,7 +72,7 @@ func (p *dtPath) String() string {
 }
 
 func (p *dtPath) clone() *dtPath {
-	n := &dtPath{Atoms: append([]dtAtom{}, p.Atoms...), Steps: append([]string{}, p.Steps...), env: map[types.Object]string{}}
+	n := &dtPath{Atoms: append([]dtAtom{}, p.Atoms...), Steps: append([]string{}, p.Steps...), Calls: append([]dtCall{}, p.Calls...), env: map[types.Object]string{}}
 	for k, v := range p.env {
 		n.env[k] = v
 	}
@@ -102,7 +122,7 @@ func (d *dtEnum) canon(p *dtPath, e ast.Expr) string {
 	case *ast.SelectorExpr:
 		if id, ok := x.X.(*ast.Ident); ok {
 			if pn, ok := d.info.Uses[id].(*types.PkgName); ok {
-				return pn.Imported().Path() + "." + x.Sel.Name
+				return strings.TrimPrefix(pn.Imported().Path(), modPath+"/") + "." + x.Sel.Name
 			}
 		}
 		return d.canon(p, x.X) + "." + x.Sel.Name
@@ -119,7 +139,7 @@ func (d *dtEnum) canon(p *dtPath, e ast.Expr) string {
 		if x.Ellipsis.IsValid() {
 			ell = "..."
 		}
-		name := calleeName(d.info, x)
+		name := strings.ReplaceAll(calleeName(d.info, x), modPath+"/", "")
 		if name == "" {
 			name = d.canon(p, x.Fun)
 		} else if sel, ok := x.Fun.(*ast.SelectorExpr); ok {
@@ -284,6 +304,14 @@ func (d *dtEnum) noteCalls(p *dtPath, n ast.Node) (exits bool) {
 			if name == "" {
 				name = d.canon(p, c.Fun)
 			}
+			dc := dtCall{Name: strings.ReplaceAll(name, modPath+"/", ""), Step: len(p.Steps), Pos: c.Pos()}
+			for _, a := range c.Args {
+				dc.Args = append(dc.Args, d.canon(p, a))
+			}
+			if sel, ok := c.Fun.(*ast.SelectorExpr); ok && d.info.Selections[sel] != nil {
+				dc.Recv = d.canon(p, sel.X)
+			}
+			p.Calls = append(p.Calls, dc)
 			p.Steps = append(p.Steps, "call "+d.canon(p, c))
 			if name == "os.Exit" || name == "builtin.panic" || strings.HasSuffix(name, "zerolog.Event).Fatal") && false {
 				exits = true
